@@ -498,8 +498,103 @@ func (b *Builder) labelOf(v ssa.Value, fr *frame, e env, depth int) *LabelVal {
 		if ch, ok := e.phis[fr.id+"/"+x.Name()]; ok && ch < len(x.Edges) {
 			return b.labelOf(x.Edges[ch], fr, e, depth+1)
 		}
+	case *ssa.Field:
+		// a label carried in a struct handed down by value (a "parameter object"): the field of the caller's literal
+		if v2, f2 := structFieldValue(x.X, x.Field, fr, 0); v2 != nil {
+			return b.labelOf(v2, f2, e, depth+1)
+		}
+	case *ssa.UnOp:
+		if fa, ok := x.X.(*ssa.FieldAddr); ok && x.Op == token.MUL {
+			if al, ok := fa.X.(*ssa.Alloc); ok {
+				// the struct parameter spilled at entry, or a literal of this function
+				if st := flowOnlyStore(al); st != nil {
+					if v2, f2 := structFieldValue(st.Val, fa.Field, fr, 0); v2 != nil {
+						return b.labelOf(v2, f2, e, depth+1)
+					}
+				} else if v2 := fieldStoreBefore(al, fa.Field, x); v2 != nil {
+					return b.labelOf(v2, fr, e, depth+1)
+				}
+			}
+		}
 	}
 	return nil
+}
+
+// flowOnlyStore: the single whole-value store into a local.
+func flowOnlyStore(al *ssa.Alloc) *ssa.Store {
+	var only *ssa.Store
+	for _, ref := range *al.Referrers() {
+		if st, ok := ref.(*ssa.Store); ok && st.Addr == ssa.Value(al) {
+			if only != nil {
+				return nil
+			}
+			only = st
+		}
+	}
+	return only
+}
+
+// fieldStoreBefore: the value of the only store into field idx of the local, which must dominate `at`.
+func fieldStoreBefore(al *ssa.Alloc, idx int, at ssa.Instruction) ssa.Value {
+	var val ssa.Value
+	n := 0
+	for _, ref := range *al.Referrers() {
+		switch x := ref.(type) {
+		case *ssa.FieldAddr:
+			if x.Field != idx {
+				continue
+			}
+			for _, r2 := range *x.Referrers() {
+				if st, ok := r2.(*ssa.Store); ok && st.Addr == ssa.Value(x) {
+					n++
+					val = st.Val
+					if !(st.Block() == at.Block() && instrIndex(st) < instrIndex(at)) && !(st.Block() != at.Block() && st.Block().Dominates(at.Block())) {
+						return nil
+					}
+				}
+			}
+		case *ssa.Store:
+			if x.Addr == ssa.Value(al) {
+				return nil
+			}
+		case *ssa.UnOp, *ssa.DebugRef:
+		default:
+			return nil // the address escapes
+		}
+	}
+	if n != 1 {
+		return nil
+	}
+	return val
+}
+
+// structFieldValue: the value of field idx of the struct value sv in frame fr: sv is a parameter (the caller's argument, in
+// the caller's frame) or the whole-value load of a literal built field by field in a local.
+func structFieldValue(sv ssa.Value, idx int, fr *frame, depth int) (ssa.Value, *frame) {
+	if depth > 8 || fr == nil {
+		return nil, nil
+	}
+	switch x := sv.(type) {
+	case *ssa.Parameter:
+		if fr.call == nil {
+			return nil, nil
+		}
+		for i, p := range fr.fn.Params {
+			if p == x && i < len(fr.call.Call.Args) {
+				return structFieldValue(fr.call.Call.Args[i], idx, fr.parent, depth+1)
+			}
+		}
+	case *ssa.UnOp:
+		if al, ok := x.X.(*ssa.Alloc); ok && x.Op == token.MUL {
+			if st := flowOnlyStore(al); st != nil {
+				return structFieldValue(st.Val, idx, fr, depth+1)
+			}
+			if v := fieldStoreBefore(al, idx, x); v != nil {
+				return v, fr
+			}
+		}
+	}
+	return nil, nil
 }
 
 func (b *Builder) newLabelVal(x *ssa.Call, fr *frame) *LabelVal {
